@@ -158,18 +158,18 @@ def explicit_euler(
     logger.debug("Generating explicit Euler scheme")
     eqs = []
     values = sympy.IndexedBase(name, shape=(len(ode.state_derivatives),))
-    i = 0
+    # The slot of a state is given by its position in the sorted states (the state index),
+    # which does not depend on the order the (possibly reduced set of) assignments are visited
+    index = {state.name: i for i, state in enumerate(ode.sorted_states())}
     for x in ode.sorted_assignments(remove_unused=remove_unused):
         eqs.append(printer(x.symbol, x.expr, use_variable_prefix=True))
         if isinstance(x, atoms.StateDerivative):
             eqs.append(
                 printer(
-                    values[i],
+                    values[index[x.state.name]],
                     x.state.symbol + dt * x.symbol,
                 )
             )
-
-            i += 1
 
     return eqs
 
@@ -229,7 +229,9 @@ def hybrid_rush_larsen(
     found_stiff_states_set = set()
     eqs = []
     values = sympy.IndexedBase(name, shape=(len(ode.state_derivatives),))
-    i = 0
+    # The slot of a state is given by its position in the sorted states (the state index),
+    # which does not depend on the order the (possibly reduced set of) assignments are visited
+    index = {state.name: i for i, state in enumerate(ode.sorted_states())}
     for x in ode.sorted_assignments(remove_unused=remove_unused):
         eqs.append(printer(x.symbol, x.expr, use_variable_prefix=True))
 
@@ -243,11 +245,10 @@ def hybrid_rush_larsen(
             # Use forward Euler
             eqs.append(
                 printer(
-                    values[i],
+                    values[index[x.state.name]],
                     x.state.symbol + dt * x.symbol,
                 )
             )
-            i += 1
             continue
 
         found_stiff_states_set.add(x.state.name)
@@ -269,11 +270,10 @@ def hybrid_rush_larsen(
             )
         eqs.append(
             printer(
-                values[i],
+                values[index[x.state.name]],
                 x.state.symbol + RL_term,
             )
         )
-        i += 1
     logger.debug(
         "The following states where marked as stiff but not found in the ODE:",
         extra=stiff_states_set.difference(found_stiff_states_set),
@@ -324,7 +324,9 @@ def generalized_rush_larsen(
     logger.debug("Generating generalized Rush-Larsen scheme")
     eqs = []
     values = sympy.IndexedBase(name, shape=(len(ode.state_derivatives),))
-    i = 0
+    # The slot of a state is given by its position in the sorted states (the state index),
+    # which does not depend on the order the (possibly reduced set of) assignments are visited
+    index = {state.name: i for i, state in enumerate(ode.sorted_states())}
     for x in ode.sorted_assignments(remove_unused=remove_unused):
         eqs.append(printer(x.symbol, x.expr, use_variable_prefix=True))
 
@@ -337,11 +339,10 @@ def generalized_rush_larsen(
             # Use forward Euler
             eqs.append(
                 printer(
-                    values[i],
+                    values[index[x.state.name]],
                     x.state.symbol + dt * x.symbol,
                 )
             )
-            i += 1
             continue
 
         linearized_name = x.name + "_linearized"
@@ -361,9 +362,8 @@ def generalized_rush_larsen(
             )
         eqs.append(
             printer(
-                values[i],
+                values[index[x.state.name]],
                 x.state.symbol + RL_term,
             )
         )
-        i += 1
     return eqs
